@@ -123,9 +123,10 @@ def run_one(case):
                     await asyncio.sleep(1)
 
         class F(edzed.FSM):
-            STATES = ['off', 'on']
-            TIMERS = {'on': (1.0, 'stop')}
-            EVENTS = [['start', ['off'], 'on'], ['stop', None, 'off']]
+            STATES = ['off', 'on', 'warm']
+            # 'warm' -> 'on' is a timed state entered by the expiry of another timer
+            TIMERS = {'on': (1.0, 'stop'), 'warm': (2 * MS, 'go')}
+            EVENTS = [['start', ['off'], 'on'], ['stop', None, 'off'], ['go', ['warm'], 'on']]
 
         first_probe = None
         for idx, bd in enumerate(case['blocks']):
@@ -157,7 +158,7 @@ def run_one(case):
             elif t == 'mtask':
                 blk = MT(name, fault=bd.get('fault'), stop_timeout=20 * MS)
             elif t == 'fsm':
-                blk = F(name, initdef='on')
+                blk = F(name, initdef='warm' if bd.get('chain') else 'on')
             elif t == 'repeat':
                 blk = edzed.Repeat(name, dest='b0', etype='put', interval=1.0)
             elif t == 'vpoll':
@@ -367,7 +368,7 @@ class C08(common.Spec):
 
     def emit(self, case, obs):
         if obs['harness'] is not None or obs['leaked_tasks'] is None:
-            raise common.Broken(f"C08 harness problem: {obs['harness']} on {case}")
+            raise common.HarnessProblem(f"C08 harness problem: {obs['harness']} on {case}")
         idx = {n: i for i, n in enumerate(obs['names'])}
         n = len(idx)
         sf = None
@@ -461,6 +462,8 @@ def gen_case(rng):
                 bd['stop_timeout_ms'] = 5
         if t == 'oasync':
             bd['mode'] = rng.choice(['wait', 'cancel', 'start'])
+        if t == 'fsm' and rng.random() < 0.5:
+            bd['chain'] = True
         blocks.append(bd)
     for bd in blocks:
         if bd['t'] == 'probe' and rng.random() < 0.4:
@@ -532,6 +535,9 @@ DIRECTED = [
         dict(t='mtask')], None, 'running', fault_ms=4),
     _d([dict(t='probe'), dict(t='probe', fault='handler_sim'), dict(t='func'), dict(t='oasync', mode='wait'),
         dict(t='repeat')], 'support_return', 'running', wait_init=True, fault_ms=6),
+    # a timed FSM state entered by the expiry of another FSM timer, ended while that timer runs
+    _d([dict(t='probe'), dict(t='fsm', chain=True), dict(t='ofunc')], 'shutdown', 'running', fault_ms=6),
+    _d([dict(t='probe'), dict(t='fsm', chain=True), dict(_AP, stop_ms=3)], 'abort', 'running', fault_ms=8),
     # a persistent block that is still uninitialised when the run is terminated during the async init
     _d([dict(t='probe'), dict(_AP), dict(t='probe', persistent=True, fault='init_from_value'),
         dict(t='probe', persistent=True), dict(t='ofunc')], 'shutdown', 'async_init'),
